@@ -58,3 +58,45 @@ Proof.
   replace (A * w / h / (A * h / w)) with (Rsqr (w / h)) by (unfold Rsqr; field; repeat split; lra).
   apply sqrt_Rsqr. apply Rlt_le, Rdiv_lt_0_compat; assumption.
 Qed.
+
+(* generic facts about chains *)
+Lemma resolve_in rho g ch v : resolve rho g ch = CVal v ->
+  exists j e, In j ch /\ i_body j = Some e /\ v = eval rho e /\ guard_eval g (i_guard j) = true.
+Proof.
+  induction ch as [|i r IH]; cbn [resolve]; [discriminate|].
+  destruct (guard_eval g (i_guard i)) eqn:G.
+  - destruct (i_body i) as [e|] eqn:B; [|discriminate]. intro H. inversion H; subst.
+    exists i, e. repeat split; try assumption. left. reflexivity.
+  - intro H. destruct (IH H) as [j [e [I [B [V G']]]]]. exists j, e. repeat split; try assumption. right. assumption.
+Qed.
+
+Lemma resolve_total rho g ch i :
+  (forall j, In j ch -> i_body j <> None) -> i_guard i = [] -> i_body i <> None ->
+  exists v, resolve rho g (ch ++ [i]) = CVal v.
+Proof.
+  intros H G B. induction ch as [|j r IH]; cbn [app resolve].
+  - rewrite G. cbn. destruct (i_body i) as [e|]; [eexists; reflexivity | congruence].
+  - destruct (guard_eval g (i_guard j)).
+    + destruct (i_body j) as [e|] eqn:E; [eexists; reflexivity|]. exfalso. apply (H j); [left; reflexivity | assumption].
+    + apply IH. intros k Hk. apply H. right. assumption.
+Qed.
+
+Definition body_is_int (zs : list Z) (i : impl) : bool :=
+  match i_body i with Some (CstZ z) => existsb (Z.eqb z) zs | _ => false end.
+
+Fixpoint chain_total (ch : list impl) : bool :=
+  match ch with
+  | [] => false
+  | [i] => match i_guard i, i_body i with [], Some _ => true | _, _ => false end
+  | i :: r => match i_body i with Some _ => chain_total r | None => false end
+  end.
+
+Lemma chain_total_sound rho g ch : chain_total ch = true -> exists v, resolve rho g ch = CVal v.
+Proof.
+  induction ch as [|i r IH]; [discriminate|]. destruct r as [|j r'].
+  - cbn [chain_total resolve]. destruct (i_guard i) eqn:G; [|discriminate]. destruct (i_body i) eqn:B; [|discriminate].
+    intros _. cbn. eexists. reflexivity.
+  - intro H. change (chain_total (i :: j :: r')) with (match i_body i with Some _ => chain_total (j :: r') | None => false end) in H.
+    destruct (i_body i) as [e|] eqn:B; [|discriminate].
+    cbn [resolve]. destruct (guard_eval g (i_guard i)); [rewrite B; eexists; reflexivity | apply IH; assumption].
+Qed.
